@@ -321,4 +321,15 @@ Proof.
   exists phi. auto.
 Qed.
 
+
+(** the same in terms of [semk] only *)
+Theorem count_reach_sem : forall r1 r2, ref_ok s1 r1 -> ref_ok s2 r2 ->
+  (forall c0, bchoice c0 -> semk s1 (FUEL s1) r1 c0 = semk s2 (FUEL s2) r2 c0) ->
+  count_reach s1 (E r1) = count_reach s2 (E r2).
+Proof.
+  intros r1 r2 O1 O2 Hsem. destruct (den_exists s1 r1 B1 O1) as [phi D1].
+  apply (count_reach_den r1 r2 phi D1). split; [exact O2|].
+  intros c0 Hc. unfold FUEL in Hsem. rewrite <- (Hsem c0 Hc). apply (proj2 D1 c0 Hc).
+Qed.
+
 End TwoTables.
